@@ -155,11 +155,80 @@ def translate(fn, params):
     return [(combined[r], res[combined[r]]) for r in ret]
 
 
+
+def src_eq(node, text):
+    return ast.unparse(node).replace(' ', '') == text.replace(' ', '')
+
+
+def translate_unique(fn):
+    """unique_episodes(X_ep): an optional validation guard (raise only, under `not skip_validation`), then
+    `return np.flatnonzero(np.bincount(X_ep.astype(int)))`"""
+    stmts = [s for s in fn.body if not (isinstance(s, ast.Expr) and isinstance(s.value, ast.Constant))]
+    if [a.arg for a in fn.args.args] != ['X_ep']:
+        raise Unsupported('unique_episodes: signature')
+    body = list(stmts)
+    if isinstance(body[0], ast.If) and src_eq(body[0].test, "not config.get_config()['skip_validation']") and not body[0].orelse:
+        inner = body[0].body
+        ok = len(inner) == 1 and isinstance(inner[0], ast.If) and not inner[0].orelse and \
+            all(isinstance(x, ast.Raise) for x in inner[0].body)
+        if not ok:
+            raise Unsupported('unique_episodes: the validation block does more than raise')
+        body = body[1:]
+    if len(body) != 1 or not isinstance(body[0], ast.Return) or \
+            not src_eq(body[0].value, 'np.flatnonzero(np.bincount(X_ep.astype(int)))'):
+        raise Unsupported('unique_episodes: ' + ast.unparse(body[0])[:100])
+    return '(flatnonzero (bincount X_ep))'
+
+
+def translate_split(fn):
+    """split_episodes(X, episode_feature): label column / data columns, one boolean-mask selection per unique label"""
+    stmts = [s for s in fn.body if not (isinstance(s, ast.Expr) and isinstance(s.value, ast.Constant))]
+    if [a.arg for a in fn.args.args] != ['X', 'episode_feature']:
+        raise Unsupported('split_episodes: signature')
+    if len(stmts) != 2 or not isinstance(stmts[0], ast.If) or not src_eq(stmts[0].test, 'episode_feature') \
+            or not isinstance(stmts[1], ast.Return) or not src_eq(stmts[1].value, 'episodes'):
+        raise Unsupported('split_episodes: shape of the body')
+    t, e = stmts[0].body, stmts[0].orelse
+    if len(e) != 1 or not src_eq(e[0], 'episodes = [(0, X)]'):
+        raise Unsupported('split_episodes: branch without episode feature: ' + ast.unparse(e[0])[:80])
+    if len(t) != 4 or not src_eq(t[0], 'X_ep = X[:, 0]') or not src_eq(t[1], 'X = X[:, 1:]') or not src_eq(t[2], 'episodes = []'):
+        raise Unsupported('split_episodes: branch with episode feature (prologue)')
+    loop = t[3]
+    if not (isinstance(loop, ast.For) and src_eq(loop.target, 'i') and src_eq(loop.iter, 'unique_episodes(X_ep)')
+            and not loop.orelse and len(loop.body) == 1 and src_eq(loop.body[0], 'episodes.append((i, X[X_ep == i, :]))')):
+        raise Unsupported('split_episodes: loop: ' + ast.unparse(loop)[:160])
+    return ('(if episode_feature then\n'
+            '     let X_ep := label_column X in let X := data_columns X in\n'
+            '     [] ++ map (fun i => (i, mask_rows (map (fun l => N.eqb l i) X_ep) X)) (gen_unique_episodes X_ep)\n'
+            '   else [(0%N, data_columns X)])')
+
+
+def translate_combine(fn):
+    """combine_episodes(episodes, episode_feature): label column re-attached (or not) per episode, vstack"""
+    stmts = [s for s in fn.body if not (isinstance(s, ast.Expr) and isinstance(s.value, ast.Constant))]
+    if [a.arg for a in fn.args.args] != ['episodes', 'episode_feature']:
+        raise Unsupported('combine_episodes: signature')
+    if len(stmts) != 4 or not src_eq(stmts[0], 'combined_episodes = []') or not isinstance(stmts[1], ast.For) \
+            or not src_eq(stmts[2], 'Xc = np.vstack(combined_episodes)') or not src_eq(stmts[3], 'return Xc'):
+        raise Unsupported('combine_episodes: shape of the body')
+    loop = stmts[1]
+    if not (src_eq(loop.target, '(i, X)') and src_eq(loop.iter, 'episodes') and not loop.orelse and len(loop.body) == 1
+            and isinstance(loop.body[0], ast.If) and src_eq(loop.body[0].test, 'episode_feature')):
+        raise Unsupported('combine_episodes: loop')
+    a, b = loop.body[0].body, loop.body[0].orelse
+    if len(a) != 1 or not src_eq(a[0], 'combined_episodes.append(np.hstack((i * np.ones((X.shape[0], 1)), X)))'):
+        raise Unsupported('combine_episodes: labelled branch: ' + ast.unparse(a[0])[:120])
+    if len(b) != 1 or not src_eq(b[0], 'combined_episodes.append(X)'):
+        raise Unsupported('combine_episodes: unlabelled branch')
+    return ('(vstack_list ([] ++ map (fun e => let i := fst e in let X := snd e in\n'
+            '       if episode_feature then attach_label i X else attach_label 0%N X) episodes))')
+
+
 def main():
     src = ast.parse(open(os.path.join(REPO, 'pykoop', 'koopman_pipeline.py')).read())
     fns = {f.name: f for f in src.body if isinstance(f, ast.FunctionDef)}
     out = ['(* GENERATED by tools/gen_episodes.py from the episode utilities of the working tree - do not edit. *)',
-           'From Coq Require Import List ZArith Arith Bool.', 'From PK Require Import PyList SliceLib.',
+           'From Coq Require Import List ZArith NArith Arith Bool.', 'From PK Require Import PyList SliceLib.',
            'Import ListNotations.', '', 'Section GenEpisodes.', 'Variable T : Type.', '']
     spec = [('shift_episodes', ['n_inputs'], ['gen_shift_unshifted_ep', 'gen_shift_shifted_ep']),
             ('extract_initial_conditions', ['min_samples', 'n_inputs'], ['gen_extract_ic_ep']),
@@ -178,6 +247,17 @@ def main():
             ps = ' '.join(f'({p} : nat)' for p in params)
             out += [f'(* {name}: the entry appended to `{lst}` for one episode X_i *)',
                     f'Definition {g} {ps} (X_i : list (list T)) : list (list T) :=', f'  {t}.', '']
+    for nm in ('unique_episodes', 'split_episodes', 'combine_episodes'):
+        if nm not in fns:
+            raise Unsupported('function ' + nm)
+    out += ['(* unique_episodes: the labels are whole numbers (N); the guard that rejects other values is a raise-only block *)',
+            'Definition gen_unique_episodes (X_ep : list N) : list N :=', '  ' + translate_unique(fns['unique_episodes']) + '.', '',
+            '(* split_episodes on a data matrix given as (label, data row) pairs; without episode feature the label is ignored *)',
+            'Definition gen_split_episodes (X : list (N * list T)) (episode_feature : bool) : list (N * list (list T)) :=',
+            '  ' + translate_split(fns['split_episodes']) + '.', '',
+            '(* combine_episodes *)',
+            'Definition gen_combine_episodes (episodes : list (N * list (list T))) (episode_feature : bool) : list (N * list T) :=',
+            '  ' + translate_combine(fns['combine_episodes']) + '.', '']
     out += ['End GenEpisodes.', '']
     os.makedirs(OUT, exist_ok=True)
     with open(os.path.join(OUT, 'EpisodesGen.v'), 'w') as f:
